@@ -158,7 +158,8 @@ def simulate(
 
     if asarray:
         values = tuple(np.asarray(arr) for arr in values)
-        times = np.asarray(times)
+        # durations may be scalars or arrays: bring all acquisition times to a common shape
+        times = np.asarray(np.broadcast_arrays(*times)) if times else np.asarray(times)
 
     if len(values) == 1:
         # flatten values if only a single acquisiion
